@@ -160,7 +160,12 @@ def harness(L, what, K, max_pre, max_to, sil0=False):
         nsil = round(silq / 4)
         fails = [err] if err else judge(what, obs, fs, regs, joined, b"\0" * (nsil * thr.BPS))
         if not fails:
-            return {"status": "ok", "detections": len(regs), "schedule_len": len(s.log)}
+            out = {"status": "ok", "detections": len(regs), "schedule_len": len(s.log)}
+            if __import__("zlib").crc32(bytes(e.trace)) % 61 == 0:
+                mm = e.model()
+                if mm is not None:
+                    out["instance"] = {"windows": tok.stream_str(thr.bits_from_model(mm, K)), "schedule": compact([list(x) for x in s.log])}
+            return out
         m = e.model()
         return {"status": "cex", "failing": fails[:2], "cex": mk(m, meta, s, cb)}
     return path
